@@ -1,5 +1,6 @@
 import MimeModel.Model.Sync
 import MimeModel.Gen.Sync
+import MimeModel.Gen.Writes
 /-
   C06 — safe for concurrent use.  What is proved is the *locking protocol*: for any number
   of threads, each running any of the API functions any number of times, no reachable state
@@ -46,6 +47,14 @@ theorem gen_wellLocked :
       | some evs => okProg (compile evs) false false
       | none => false) = true := by
   decide
+
+/-- **regenerated obligation**: pooled objects go back to their pool only in a `defer` — after the
+    function's results have been computed from them — and are taken out at the start; there is no
+    other pool traffic.  (A `Put` before the results are read lets another goroutine reset the
+    object in between.) -/
+theorem pool_put_deferred :
+    Gen.Writes.poolCalls = ["magic.newReader:readerPool.Get:direct", "magic.sv:readerPool.Put:deferred",
+      "json.Parse:parserPool.Get:direct", "json.Parse:parserPool.Put:deferred"] := by decide
 
 /-- the limit is loaded exactly once per detection (so the slicing and the detectors see the
     same value: the result is the sequential result for the limit at that instant) -/
